@@ -172,7 +172,7 @@ def gen_package(rng, tier):
     cases.append(pkg_case([(b"/a", DEFAULT_RULE)], b"/b", [(b"csp-nonce", NONCES[0])], b"Kvarn/0.6.2", "pkg-corpus"))
     cases.append(pkg_case([(b"/*", EMPTY_RULE)], b"/b", [(b"csp-nonce", NONCES[0])], b"S", "pkg-corpus"))
     cases.append(pkg_case([(b"/*", EMPTY_RULE)], b"/b", [(b"content-security-policy", b"x")], b"S", "pkg-corpus"))
-    # the rule of the path the file is read from (fix 4a36f5b): strict rule for /uc/*, lax default
+    # the rule of the path the file is read from (fix 4935bb0): strict rule for /uc/*, lax default
     strict = rule([(10, [b"'none'"]), (18, [b"allow-forms"])])
     for path in (b"/uc/evil.html", b"/%75c/evil.html", b"/uc%2Fevil.html", b"/uc//evil.html", b"/%75%63/evil.html"):
         cases.append(pkg_case([(b"/*", DEFAULT_RULE), (b"/uc/*", strict)], path, [], b"S", "pkg-corpus"))
@@ -313,7 +313,7 @@ def gen_line(rng, tier):
     cases = []
     doc = b'<script nonce="old">a()</script><style nonce=\'\'>p{}</style>'
     nonce, full = (b"nonce", []), (b"cache", [b"server:full"])
-    # the defect repaired by 9e00378 first
+    # the defect repaired by 557c6d6 first
     for ds in ([nonce, full], [full, nonce], [nonce, (b"cache", [b"server:60s"])], [nonce, (b"cache", [b"server:query_matters"])],
                [(b"allow-ips", [b"127.0.0.1"]), nonce, full], [nonce, (b"allow-ips", [b"127.0.0.1"]), full], [nonce, nonce, full],
                [nonce, (b"hide", []), full], [nonce, (b"allow-ips", [b"10.0.0.1"]), full], [(b"hide", []), nonce, full], [nonce]):
